@@ -207,33 +207,32 @@ pub fn run(seed: u64, count: usize, outdir: &str) -> std::io::Result<i32> {
             }));
             match tr { Ok(g) => {
                 write!(text, " | t {}", gbits(&g)).unwrap();
-                // chain rule in f64: grad(f o T)(p) = J_T(p)^T grad f(T p), with T the projective map of the matrix
-                let p = &pts[0];
-                let m = |i: usize, j: usize| tmat[(i, j)] as f64;
-                let pp = [p[0] as f64, p[1] as f64, p[2] as f64];
-                let w = m(3, 0) * pp[0] + m(3, 1) * pp[1] + m(3, 2) * pp[2] + m(3, 3);
-                let tp: Vec<f64> = (0..3).map(|i| (m(i, 0) * pp[0] + m(i, 1) * pp[1] + m(i, 2) * pp[2] + m(i, 3)) / w).collect();
-                if w.abs() > 1e-3 && tp.iter().all(|v| v.is_finite() && v.abs() < 1e6) {
-                    let inner = catch_unwind(AssertUnwindSafe(|| {
-                        let shape = Shape::<VmFunction>::new(&dag.ctx, last).unwrap();
-                        let tape = shape.grad_slice_tape(Default::default());
-                        let mut e = Shape::<VmFunction>::new_grad_slice_eval();
-                        let (xs, ys, zs) = ([Grad::new(tp[0] as f32, 1.0, 0.0, 0.0)], [Grad::new(tp[1] as f32, 0.0, 1.0, 0.0)], [Grad::new(tp[2] as f32, 0.0, 0.0, 1.0)]);
-                        e.eval(&tape, &xs, &ys, &zs).unwrap()[0]
-                    }));
-                    if let Ok(gi) = inner {
-                        let gf = [gi.dx as f64, gi.dy as f64, gi.dz as f64];
-                        let got = [g.dx as f64, g.dy as f64, g.dz as f64];
-                        let mut worst = 0.0f64; let mut scale = 1e-6f64;
-                        for j in 0..3 {
-                            let want: f64 = (0..3).map(|i| gf[i] * (m(i, j) - tp[i] * m(3, j)) / w).sum();
-                            let terms: f64 = (0..3).map(|i| (gf[i] * (m(i, j) - tp[i] * m(3, j)) / w).abs()).sum();
-                            scale = scale.max(terms);
-                            if want.is_finite() && got[j].is_finite() { worst = worst.max((want - got[j]).abs()); }
-                        }
-                        // only where the function is smooth enough for the comparison to mean something: the value agrees
-                        if gf.iter().all(|v| v.is_finite()) && (gi.v - g.v).abs() <= 1e-4 * (1.0 + g.v.abs()) && scale < 1e6 && worst > 2e-2 * scale {
-                            tbad.push(format!("kind=transform-gradient backend=vm got {:?} but J^T grad f = chain rule differs by {worst:.4} (scale {scale:.4}) matrix {:?} point {:?}", got, tmat.as_slice(), p));
+                // the transform step on its own (Transformable for Grad), against the projective map in f64:
+                // value lanes T_i(p), derivative lanes dT_i/dp_j = (m_ij - T_i m_3j) / w.  (Comparing the whole
+                // composite with a chain rule is ill-conditioned for functions whose f32 derivative arithmetic cancels.)
+                {
+                    use fidget_core::shape::Transformable;
+                    let p = &pts[0];
+                    let m = |i: usize, j: usize| tmat[(i, j)] as f64;
+                    let pp = [p[0] as f64, p[1] as f64, p[2] as f64];
+                    let terms = [m(3, 0) * pp[0], m(3, 1) * pp[1], m(3, 2) * pp[2], m(3, 3)];
+                    let w: f64 = terms.iter().sum();
+                    let wmag: f64 = terms.iter().map(|v| v.abs()).sum();
+                    if w.abs() > 0.05 * wmag && wmag < 1e6 {
+                        let (gx, gy, gz) = <Grad as Transformable>::transform(Grad::new(p[0], 1.0, 0.0, 0.0), Grad::new(p[1], 0.0, 1.0, 0.0), Grad::new(p[2], 0.0, 0.0, 1.0), &tmat);
+                        for (i, gi) in [gx, gy, gz].iter().enumerate() {
+                            let rt = [m(i, 0) * pp[0], m(i, 1) * pp[1], m(i, 2) * pp[2], m(i, 3)];
+                            let ti: f64 = rt.iter().sum::<f64>() / w;
+                            let mag: f64 = rt.iter().map(|v| v.abs()).sum::<f64>() / w.abs();
+                            let d = [gi.dx as f64, gi.dy as f64, gi.dz as f64];
+                            let mut bad_lane = None;
+                            if (gi.v as f64 - ti).abs() > 1e-4 * (mag + 1e-6) { bad_lane = Some(format!("value {} expected {ti}", gi.v)); }
+                            for j in 0..3 {
+                                let want = (m(i, j) - ti * m(3, j)) / w;
+                                let dm = (m(i, j).abs() + mag * m(3, j).abs()) / w.abs();
+                                if (d[j] - want).abs() > 1e-3 * (dm + 1e-6) { bad_lane = Some(format!("d T_{i} / d p_{j} = {} expected {want}", d[j])); }
+                            }
+                            if let Some(b) = bad_lane { tbad.push(format!("kind=transform-gradient backend=vm Transformable for Grad: {b}; matrix {:?} point {:?}", tmat.as_slice(), p)); break; }
                         }
                     }
                 }
